@@ -266,6 +266,11 @@ func sweepLengths() []int {
 			}
 		}
 	}
+	// and a few very long tails (an uncommitted multi-megabyte flush)
+	for d := -8; d <= 8; d++ {
+		ls = append(ls, 1<<20+d)
+	}
+	ls = append(ls, 2<<20-1, 2<<20+1, 4<<20+1, 16<<20+1)
 	return ls
 }
 
